@@ -878,6 +878,11 @@ func (s *scenario) mutate() {
 		for id := int32(0); id < 9; id++ {
 			if _, ok := s.c.Brokers[id]; !ok {
 				b := s.c.AddBroker(id)
+				for _, o := range s.c.Brokers { // addresses are unique in a cluster (another broker may have moved here)
+					if o.ID != id && o.Addr() == b.Addr() {
+						b.Host = fmt.Sprintf("a%d-%d", id, r.Intn(100000))
+					}
+				}
 				if r.Intn(2) == 0 {
 					randomVersions(r, b)
 				}
